@@ -6,6 +6,7 @@ use std::sync::Arc;
 use vstd::std_specs::cmp::PartialEqSpec;
 verus! {
 //@include prelude/core.rs
+//@include prelude/std_misc.rs
 //@include prelude/strings.rs
 //@include prelude/arc.rs
 //@include inc/codec_common.rs
